@@ -51,11 +51,11 @@ vlib.standard_check({
     # harness args after the seed: ncases nsteps flags
     #   flags: 1 hierarchy 2 reset kinds 4 clock edges 8 output modes 16 memories/tristate/wide arithmetic 32 undefined stimuli
     #          64 stimuli at power-on 128 bidirectional pins released with 'Z'
-    #          1024 out-of-range addresses of non power-of-two memories (not used: index error in VHDL, reported finding)
+    #          1024 out-of-range addresses of non power-of-two memories (stream 1823 = 799 + 1024: index error in VHDL, known finding)
     #          256 clock frequencies whose period is not a whole number of ps 512 runs ending 100 ps behind a clock edge
     #   optional: only-case (-1 = all), long-run cycles (last stream: a few designs x 2500..3100 cycles)
-    "streams": {"quick": [[1200, 25, 799], [300, 45, 799], [300, 20, 831], [200, 15, 991], [8, 8, 799, -1, 2500]],
-                "thorough": [[30000, 25, 799], [6000, 60, 799], [4000, 25, 831], [2000, 20, 991], [60, 10, 799, -1, 3000]]},
+    "streams": {"quick": [[1200, 25, 799], [300, 45, 799], [300, 20, 831], [200, 15, 991], [8, 8, 799, -1, 2500], [200, 20, 1823]],
+                "thorough": [[30000, 25, 799], [6000, 60, 799], [4000, 25, 831], [2000, 20, 991], [60, 10, 799, -1, 3000], [3000, 20, 1823]]},
     "search": [[300, 25, 799]],
     "signature": signature,
     "eval_key": "ops",
